@@ -1,5 +1,5 @@
 (* C17, round 2 - a whole frame compressed through a registered sequence producer: one producer call per block, every block
-   handed to ZSTD_copySequencesToSeqStoreExplicitBlockDelim.  [producer_frame atpos]: atpos = false is the code as it is
+   handed to ZSTD_copySequencesToSeqStoreExplicitBlockDelim.  [producer_frame atpos]: atpos = false is the code before fix: e3dc2db
    (ZSTD_buildSeqStore starts every block from ZSTD_sequencePosition {0,0,0}), atpos = true hands the copier the position
    of the block in the frame.  What validation guarantees for the two, and closed witnesses that the first one both refuses
    valid parses and accepts offsets beyond the window. *)
@@ -148,7 +148,7 @@ Proof.
       exfalso. refine (IH _ _ _ Hf Hv Hw _ Hb' s' Er). lia.
     + exfalso. refine (producer_block_at_memory_safe _ _ _ _ _ _ _ _ _ Hf Hv Hw _ Hc s Eb). lia.
 Qed.
-(* the code as it is (position 0 in every block) is memory-safe as well: the finding is about the rule, not about safety *)
+(* the code before fix: e3dc2db (position 0 in every block) is memory-safe as well: the finding is about the rule, not about safety *)
 Theorem producer_frame_memory_safe_as_is cfg ers fb : forall calls rep pos dec,
   g_fixed cfg = true -> g_validate cfg = true -> g_wlog cfg <= 31 ->
   Forall (fun c => pc_size c + g_dict cfg + 3 < M32) calls ->
@@ -171,7 +171,7 @@ Definition wcfg (wlog dict : N) : scfg :=
 Definition lit_call (n : N) : pcall := {| pc_buf := [delim n]; pc_nb := 1; pc_cap := 344; pc_size := n |}.
 
 (* (1) false rejection: two blocks of 1024 bytes, the second one {off 1024, ll 0, ml 1024}: a legal offset at frame position
-   1024 (it is a valid parse whenever block 1 repeats block 0), refused by the code as it is, accepted at the frame position *)
+   1024 (it is a valid parse whenever block 1 repeats block 0), refused by the code before fix: e3dc2db, accepted at the frame position *)
 Definition w1_calls : list pcall :=
   [lit_call 1024; {| pc_buf := [{| q_off := 1024; q_ll := 0; q_ml := 1024 |}; delim 0]; pc_nb := 2; pc_cap := 344; pc_size := 1024 |}].
 Theorem producer_position_false_rejection :
@@ -184,7 +184,7 @@ Proof.
 Qed.
 
 (* (2) false acceptance: window 2^10, dictionary of 2000 bytes, sixth block (frame position 5120) answered with
-   {off 2500, ll 1000, ml 24}: position of the match 6120 > window, so the bound is the window (1024); the code as it is
+   {off 2500, ll 1000, ml 24}: position of the match 6120 > window, so the bound is the window (1024); the code before fix: e3dc2db
    compares 2500 with 1000 + 2000 and stores the sequence *)
 Definition w2_calls : list pcall :=
   [lit_call 1024; lit_call 1024; lit_call 1024; lit_call 1024; lit_call 1024;
@@ -229,3 +229,15 @@ Proof.
   assert (E4 : (pos + content <? pos + content + header) = true) by (apply N.ltb_lt; lia).
   rewrite E1, E2, E3, E4. split; reflexivity.
 Qed.
+
+(* ---------- finding C17-producer-fallback-stale-third-repcode ----------
+   A block that falls back to the internal parser leaves the model (Invalid 22 above): the parsers below btopt hand back their
+   two repeat offsets and leave the third entry of nextCBlock->rep at its value from the start of the block.  What that does
+   to the next producer block: the copier codes raw offset 5 against its own history (150, 64, 5) as repeat code 3, which the
+   decoder, whose history after the fallback block is (150, 64, 37), resolves to 37.  With the decoder's history the code
+   resolves to the raw offset (C17_offbase_finalisation_lockstep_one, for every history). *)
+Theorem stale_third_repcode_breaks_lockstep :
+  let enc := (150, 64, 5) in let dec := (150, 64, 37) in
+  let ob := finalize_offbase 5 enc false in
+  ob = 3 /\ resolve_offset ob 1 dec = Ok (37, (37, 150, 64)) /\ resolve_offset ob 1 enc = Ok (5, (5, 150, 64)).
+Proof. vm_compute. repeat split; reflexivity. Qed.
